@@ -3,7 +3,8 @@
 Writes the outcome into seeded/<id>/meta.json under 'last_confirmation'."""
 import json, os, subprocess, sys, glob
 VERIF = os.path.dirname(os.path.dirname(os.path.abspath(__file__)))
-only = sys.argv[1:]
+only = [a for a in sys.argv[1:] if not a.startswith("--")]
+extra = [a for a in sys.argv[1:] if a.startswith("--")]       # e.g. --no-tests (the suite was confirmed when the seed was recorded)
 for d in sorted(glob.glob(os.path.join(VERIF, "seeded", "*"))):
     sid = os.path.basename(d)
     if only and sid not in only:
@@ -11,18 +12,20 @@ for d in sorted(glob.glob(os.path.join(VERIF, "seeded", "*"))):
     meta = json.load(open(os.path.join(d, "meta.json")))
     checks = ",".join(sorted(meta["caught_by"].keys()))
     p = subprocess.run([os.path.join(VERIF, "tools", "try_seed.py"), meta["property"], os.path.join(d, "patch.diff"),
-                        os.path.join(d, "demo.py"), f"--checks={checks}"], capture_output=True, text=True)
+                        os.path.join(d, "demo.py"), f"--checks={checks}"] + extra, capture_output=True, text=True)
     t = p.stdout
     try:
         res = json.loads(t[t.index("{"):])
     except Exception:
         res = {"error": t[-400:] + p.stderr[-400:]}
     meta["last_confirmation"] = {
-        "applies": res.get("applies"), "suite_passes_apart_from_known_failure": res.get("tests_ok"),
+        "applies": res.get("applies"),
+        "suite_passes_apart_from_known_failure": (res.get("tests_ok") if "--no-tests" not in extra
+                                                  else (meta.get("last_confirmation") or {}).get("suite_passes_apart_from_known_failure")),
         "demo_rc_with_change": res.get("demo_with_change_rc"), "demo_rc_without_change": res.get("demo_without_change_rc"),
         "checks": {c: {"exit": v["rc"], "first_line": (v["lines"] or [""])[0][:200]} for c, v in res.get("checks", {}).items()},
     }
     json.dump(meta, open(os.path.join(d, "meta.json"), "w"), indent=1)
-    ok = (res.get("applies") and res.get("tests_ok") and res.get("demo_with_change_rc") not in (0, None)
+    ok = (res.get("applies") and (res.get("tests_ok") or "--no-tests" in extra) and res.get("demo_with_change_rc") not in (0, None)
           and res.get("demo_without_change_rc") == 0 and any(v["rc"] == 1 for v in res.get("checks", {}).values()))
     print(sid, "OK" if ok else "PROBLEM", meta["last_confirmation"], flush=True)
